@@ -283,12 +283,31 @@ func (a *oauth2IntrospectionAuthenticator) getSubjectInformation(ctx heimdall.Co
 		return nil, err
 	}
 
+	// configured assertions take precedence over those available in the metadata
+	assertions := a.a.Merge(oauth2.Expectation{
+		TrustedIssuers: []string{metadata.Issuer},
+	})
+
 	if a.isCacheEnabled() {
 		cacheKey = a.calculateCacheKey(metadata.IntrospectionEndpoint, req.URL.String(), token)
 		if entry, err := cch.Get(ctx.AppContext(), cacheKey); err == nil {
-			logger.Debug().Msg("Reusing introspection response from cache")
+			var cachedResp oauth2.IntrospectionResponse
 
-			return entry, nil
+			if err = json.Unmarshal(entry, &cachedResp); err == nil {
+				logger.Debug().Msg("Reusing introspection response from cache")
+
+				// the response might have been cached while executing another rule using the same
+				// mechanism with different assertions. So, it must satisfy the assertions of this
+				// one as well
+				if err = cachedResp.Validate(assertions); err != nil {
+					return nil, errorchain.
+						NewWithMessage(heimdall.ErrAuthentication, "access token does not satisfy assertion conditions").
+						WithErrorContext(a).
+						CausedBy(err)
+				}
+
+				return entry, nil
+			}
 		}
 	}
 
@@ -300,11 +319,6 @@ func (a *oauth2IntrospectionAuthenticator) getSubjectInformation(ctx heimdall.Co
 	if err != nil {
 		return nil, err
 	}
-
-	// configured assertions take precedence over those available in the metadata
-	assertions := a.a.Merge(oauth2.Expectation{
-		TrustedIssuers: []string{metadata.Issuer},
-	})
 
 	if err = introspectResp.Validate(assertions); err != nil {
 		return nil, errorchain.
